@@ -476,7 +476,7 @@ func (fr *Frame) applyContract(st *State, sp *FuncSpec, fn *ssa.Function, sig *t
 				ref = app("s_arr", tv.S)
 			}
 			sort := r.heapSort[h]
-			inner := strings.TrimSuffix(strings.TrimPrefix(sort, "(Array Int "), ")")
+			inner := strings.TrimSuffix(strings.TrimPrefix(strings.TrimPrefix(sort, "(Array Int "), "(Array Iface "), ")")
 			nv := r.declare("modof", inner)
 			cur = app("store", cur, ref, nv)
 		}
@@ -582,6 +582,10 @@ func (fr *Frame) builtin(st *State, b *ssa.Builtin, c *ssa.CallCommon, v ssa.Val
 			mi := r.mapHeaps(st, t)
 			ln := r.define("maplen", SInt, ite(eq(a.S, "0"), "0", app("select", mi.ln, a.S)))
 			r.assumeGlobal(app(">=", ln, "0"))
+			// cardinality: a map that holds a key has positive length
+			q := r.fresh("qm")
+			dm := app("select", mi.dom, a.S)
+			r.assume(st, fmt.Sprintf("(forall ((%s %s)) (! (=> (and (not (= %s 0)) (select %s %s)) (> %s 0)) :pattern ((select %s %s))))", q, mi.ksort, a.S, dm, q, ln, dm, q))
 			return TV{ln, SInt, it}
 		case *types.Array:
 			return TV{num(t.Len()), SInt, it}
@@ -725,6 +729,11 @@ func (fr *Frame) appendOp(st *State, c *ssa.CallCommon, v ssa.Value) Val {
 			arr = app("store", arr, add(la, num(int64(j))), app("select", app("select", h, app("s_arr", b.S)), add(app("s_off", b.S), num(int64(j)))))
 		}
 		arr = r.define("apparr", asort, arr)
+		// bridge for E-matching: a read of the old contents names the same element of the grown array (lets an
+		// existential witness found in the old slice be reused for the new one)
+		q3 := r.fresh("qc")
+		r.assumeBGIn(st, fmt.Sprintf("(forall ((%s Int)) (! (=> (and (<= 0 %s) (< %s %s)) (= (select %s %s) (select %s %s))) :pattern ((select %s %s))))",
+			q3, q3, q3, la, arr, q3, arr0, q3, arr0, q3))
 	} else {
 		arr = r.declare("apparr", asort)
 		q2 := r.fresh("qb")
